@@ -294,27 +294,7 @@ func checkC18(r *Run) propMeta {
 		}
 	}
 	// ---- R3 manifest entry from the writer's own counters; loader compares them
-	if cl := decls["compressedJSONLinesWriter.Close"]; cl != nil {
-		want := map[string]string{"Count": "count", "CompressedBytes": "compressedCounter", "UncompressedBytes": "uncompressedCounter", "SHA256": "hasher"}
-		got := map[string]string{}
-		ast.Inspect(cl.Body, func(n ast.Node) bool {
-			if kv, ok := n.(*ast.KeyValueExpr); ok {
-				if id, ok := kv.Key.(*ast.Ident); ok {
-					got[id.Name] = exprString(r.Fset, kv.Value)
-				}
-			}
-			return true
-		})
-		for _, k := range sortedKeys(want) {
-			if strings.Contains(got[k], "s."+want[k]) {
-				r.Pass("C18-R3-manifest-entry", "FileManifest."+k, cl.Pos(), "taken from the writer's %s", want[k])
-			} else {
-				r.Fail("C18-R3-manifest-entry", "FileManifest."+k, cl.Pos(), "the manifest entry's %s is not the writer's own %s (%q): the manifest no longer describes the file written", k, want[k], got[k])
-			}
-		}
-	} else {
-		r.Undecide("C18-R3: compressedJSONLinesWriter.Close not found")
-	}
+	checkWriterCells(r, p)
 	var vc *ast.FuncDecl
 	for _, cand := range declsWhere(p, func(fd *ast.FuncDecl) bool {
 		found := false
@@ -661,5 +641,155 @@ func checkInjectiveNaming(r *Run, p *packages.Package) {
 	}
 	if n == 0 {
 		r.Undecide("C18-R7: no string-keyed map access found in the metrics code of package retriever")
+	}
+}
+
+// checkWriterCells (R3, R9): the manifest entry a fragment writer hands back is made of the writer's own measuring cells,
+// each in its place — the compressed size from the counter next to the file, the uncompressed size from the counter in
+// front of the compressor, the digest from the hash next to the file — and the writer's line-length guard measures the
+// uncompressed bytes (the reader's limit is on the decompressed line). The cells are found by their wiring (c18_roles.go).
+func checkWriterCells(r *Run, p *packages.Package) {
+	info := p.TypesInfo
+	wr := findWriterRoles(p, "FileManifest")
+	if wr.Why != "" {
+		r.Undecide("C18-R3: the fragment writer's measuring cells could not be identified: %s", wr.Why)
+		return
+	}
+	r.Extra["writer_cells"] = wr.Roles
+	var closeFd, writeFd *ast.FuncDecl
+	for _, f := range p.Syntax {
+		for _, d := range f.Decls {
+			fd, ok := d.(*ast.FuncDecl)
+			if !ok || fd.Recv == nil || fd.Body == nil || namedOf(info.TypeOf(fd.Recv.List[0].Type)) != wr.Type {
+				continue
+			}
+			if fd.Type.Results != nil && len(fd.Type.Results.List) > 0 && namedName(info.TypeOf(fd.Type.Results.List[0].Type)) == "FileManifest" {
+				closeFd = fd
+			}
+			if stmtHasCall(fd.Body, func(c *ast.CallExpr) bool {
+				sel, ok := c.Fun.(*ast.SelectorExpr)
+				return ok && sel.Sel.Name == "Encode"
+			}) {
+				writeFd = fd
+			}
+		}
+	}
+	if closeFd == nil {
+		r.Undecide("C18-R3: no method of %s returns a FileManifest", wr.Type.Obj().Name())
+		return
+	}
+	recv := recvObj(p, closeFd)
+	want := map[string]string{"CompressedBytes": "compressed", "UncompressedBytes": "uncompressed", "SHA256": "hasher"}
+	got := map[string]ast.Expr{}
+	ast.Inspect(closeFd.Body, func(n ast.Node) bool {
+		if cl, ok := n.(*ast.CompositeLit); ok && namedName(info.TypeOf(cl)) == "FileManifest" {
+			for _, el := range cl.Elts {
+				if kv, ok := el.(*ast.KeyValueExpr); ok {
+					if id, ok := kv.Key.(*ast.Ident); ok {
+						got[id.Name] = kv.Value
+					}
+				}
+			}
+		}
+		return true
+	})
+	for _, k := range sortedKeys(want) {
+		v := got[k]
+		if v == nil {
+			r.Fail("C18-R3-manifest-entry", "FileManifest."+k, closeFd.Pos(), "the manifest entry the writer hands back does not set %s", k)
+			continue
+		}
+		roles := wr.rolesRead(p, recv, v, 0)
+		if len(roles) == 1 && roles[want[k]] {
+			r.Pass("C18-R3-manifest-entry", "FileManifest."+k, v.Pos(), "taken from the writer's %s cell (identified by the constructor's wiring)", want[k])
+		} else {
+			r.Fail("C18-R3-manifest-entry", "FileManifest."+k, v.Pos(), "the manifest entry's %s is not taken from the writer's own %s cell (%q reads %v): the manifest no longer describes the file written", k, want[k], exprString(r.Fset, v), sortedKeys(roles))
+		}
+	}
+	// Count: a field of the writer that the encoding method counts up
+	if v := got["Count"]; v == nil {
+		r.Fail("C18-R3-manifest-entry", "FileManifest.Count", closeFd.Pos(), "the manifest entry the writer hands back does not set Count")
+	} else {
+		counted := false
+		if sel, ok := ast.Unparen(v).(*ast.SelectorExpr); ok && writeFd != nil {
+			if fv, ok := info.Uses[sel.Sel].(*types.Var); ok && fv.IsField() {
+				ast.Inspect(writeFd.Body, func(n ast.Node) bool {
+					if inc, ok := n.(*ast.IncDecStmt); ok && inc.Tok == token.INC {
+						if s2, ok := ast.Unparen(inc.X).(*ast.SelectorExpr); ok && info.Uses[s2.Sel] == types.Object(fv) {
+							counted = true
+						}
+					}
+					return true
+				})
+			}
+		}
+		if counted {
+			r.Pass("C18-R3-manifest-entry", "FileManifest.Count", v.Pos(), "taken from the field the encoding method counts up")
+		} else {
+			r.Fail("C18-R3-manifest-entry", "FileManifest.Count", v.Pos(), "the manifest entry's Count (%q) is not the field the writer's encoding method counts up: the manifest no longer describes the file written", exprString(r.Fset, v))
+		}
+	}
+	// R9: the line-length guard
+	if writeFd == nil {
+		r.Note("C18-R10: no encoding method found on %s", wr.Type.Obj().Name())
+		return
+	}
+	wrecv := recvObj(p, writeFd)
+	guards := 0
+	ast.Inspect(writeFd.Body, func(n ast.Node) bool {
+		ifs, ok := n.(*ast.IfStmt)
+		if !ok || !alwaysLeaves(ifs.Body) {
+			return true
+		}
+		be, ok := ast.Unparen(ifs.Cond).(*ast.BinaryExpr)
+		if !ok || (be.Op != token.GTR && be.Op != token.GEQ) {
+			return true
+		}
+		if tv, has := info.Types[be.Y]; !has || tv.Value == nil {
+			return true
+		}
+		// the measured quantity: the left side, with locals replaced by what they were given
+		var exprs []ast.Expr
+		var expand func(e ast.Expr, depth int)
+		expand = func(e ast.Expr, depth int) {
+			exprs = append(exprs, e)
+			if depth > 3 {
+				return
+			}
+			ast.Inspect(e, func(m ast.Node) bool {
+				if id, ok := m.(*ast.Ident); ok {
+					if _, isVar := info.Uses[id].(*types.Var); isVar && info.Uses[id] != wrecv {
+						if def := resolveLocalCopy(info, writeFd.Body, id); def != ast.Expr(id) {
+							expand(def, depth+1)
+						} else if as, ok := ifs.Init.(*ast.AssignStmt); ok && len(as.Lhs) == 1 && len(as.Rhs) == 1 {
+							if l, ok := as.Lhs[0].(*ast.Ident); ok && info.Defs[l] == info.Uses[id] {
+								expand(as.Rhs[0], depth+1)
+							}
+						}
+					}
+				}
+				return true
+			})
+		}
+		expand(be.X, 0)
+		roles := map[string]bool{}
+		for _, e := range exprs {
+			for k := range wr.rolesRead(p, wrecv, e, 0) {
+				roles[k] = true
+			}
+		}
+		if len(roles) == 0 {
+			return true
+		}
+		guards++
+		if len(roles) == 1 && roles["uncompressed"] {
+			r.Pass("C18-R10-line-guard", wr.Type.Obj().Name()+"."+writeFd.Name.Name, ifs.Pos(), "the line-length guard measures the bytes handed to the compressor, which is what the reader's limit applies to")
+		} else {
+			r.Fail("C18-R10-line-guard", wr.Type.Obj().Name()+"."+writeFd.Name.Name, ifs.Pos(), "the line-length guard measures %v bytes: the reader limits the decompressed line, so under a compressing codec a record that no reader can load is written (or a loadable one is refused)", sortedKeys(roles))
+		}
+		return true
+	})
+	if guards == 0 {
+		r.Note("C18-R10: the encoding method of %s has no size guard over the measuring cells", wr.Type.Obj().Name())
 	}
 }
